@@ -924,6 +924,7 @@ def C08(tier, seed, st):
     for lang in LANGS:
         t = gens.table(lang)
         res.count("index/" + lang, len(observed[lang]))
+        res.evaluations += 2048
         for idx in range(2048):
             got = observed[lang].get(idx, set())
             res.nontrivial.add("%s/%d" % (lang, idx))
